@@ -416,7 +416,7 @@ void run_episode(uint64_t seed, uint64_t index) {
   w.ntasks = size_t(total);
   w.tasks.reset(new Task[w.ntasks]);
   int nthreads = c.retirers + c.holders;
-  static std::vector<TableSlot*> pool;
+  static std::vector<TableSlot*>& pool = *new std::vector<TableSlot*>;  // never destroyed: stays reachable for LSan
   for (int i = 0; i < nthreads; ++i) {
     if (pool.size() <= size_t(i)) {
       pool.push_back(new TableSlot);
